@@ -538,9 +538,10 @@ func main() {
 		runner.RunWorker(append(scenarios(false), scenarios(true)...))
 	}
 	rep := report.New("C10", "exploration")
-	rep.Rule = "(a) frame sequences (GOP shorter/equal/longer than the fragment, audio-only gaps, 40 ms..6 s steps, memory and disk storage) through the real TS packetisers -> SegmentGenerator -> Playlist with the playlist/segment invariants evaluated after every frame and every segment demultiplexed by the independent TS oracle; (b) every schedule within the deviation bound of a writer forcing rollovers vs one or two fetchers that hold the playlist bytes and read segments chunk by chunk (sync.Pool reuse is the default answer); distinct = distinct configurations / (scenario, outcome)"
+	rep.Rule = "(a) frame sequences (GOP shorter/equal/longer than the fragment, audio-only gaps, 40 ms..6 s steps, memory and disk storage) through the real TS packetisers -> SegmentGenerator -> Playlist with the playlist/segment invariants evaluated after every frame and every segment demultiplexed by the independent TS oracle; (b) every schedule within the deviation bound of a writer forcing rollovers vs one or two fetchers that hold the playlist bytes and read segments chunk by chunk (sync.Pool reuse is the default answer); (c) the whole chain: a real publisher session pushes H.264 over interleaved RTP, service/hls.GetM3u8 (polling on the virtual clock) and GetTS serve playlist and segments, which are parsed by the independent TS demultiplexer and compared with the pushed pictures, for GOP x frame interval x token; distinct = distinct configurations / (scenario, outcome)"
 	rep.Assumptions = []string{"sync.Pool.Get returns the most recently Put object (a legal behaviour)", "sequentially consistent memory"}
 	sequential(rep)
+	endToEnd(rep)
 	runner.FineP = 2 // statement-level points in the files of fine.txt
 	if rep.Thorough() {
 		runner.FineP = 2
